@@ -22,7 +22,7 @@ def entry(pid, theorems, parts, extra_assumptions=()):
             "assumptions": [MODEL_NOTE, PARTIAL] + list(extra_assumptions), "trusted_base": SIM_TRUST}
 
 PROPS = {
-    "C01": entry("C01", ["c01_finish_needs_start", "c01_terminal_is_final", "c01_core_forgets", "c01_core_ignores_unknown"],
+    "C01": entry("C01", ["c01_outcome_once", "c01_finish_needs_start", "c01_terminal_is_final", "c01_core_forgets", "c01_core_ignores_unknown"],
                  [job(["ev", "tasks", "job"], ["c01."]), core(["cb", "t"], ["c01."])]),
     "C02": entry("C02", ["c02_submit_ids", "c02_auto_ids_agree"],
                  [job(["core", "live", "resp", "tasks"], ["c02."]), core(["t", "q", "flag"], ["c02."])],
